@@ -37,6 +37,7 @@ type ConfModel struct {
 	ClockskewS     int                 `json:"clockskew,omitempty"`
 	Realms         map[string][]string `json:"realms"`                 // realm -> kdc addresses
 	DomainRealm    map[string]string   `json:"domain_realm,omitempty"` // domain -> realm
+	KPasswd        map[string][]string `json:"kpasswd,omitempty"`      // realm -> kpasswd_server addresses
 }
 
 var EtypeNames = map[int]string{16: "des3-cbc-sha1-kd", 17: "aes128-cts-hmac-sha1-96", 18: "aes256-cts-hmac-sha1-96",
@@ -94,6 +95,9 @@ func (m ConfModel) Render() string {
 		fmt.Fprintf(&b, "  %s = {\n", r)
 		for _, k := range m.Realms[r] {
 			fmt.Fprintf(&b, "    kdc = %s\n", k)
+		}
+		for _, k := range m.KPasswd[r] {
+			fmt.Fprintf(&b, "    kpasswd_server = %s\n", k)
 		}
 		b.WriteString("  }\n")
 	}
